@@ -157,6 +157,28 @@ def confront(job):
                         if not _same(v, exp[t]):
                             out.append((code, adjust, t, k, "returned %r, expected %s" % (
                                 float(v), "NaN" if exp[t][1] == 0 else "%d/%d" % exp[t])))
+        # recurring prices: the same file with some cells made EQUAL to earlier, non-adjacent ones (day 3 opens at day 1's
+        # open and closes at day 2's close, day 4 opens at day 1's close).  Without adjustment an answer is one cell's
+        # value or NaN, so the expected answers are the specification's, mapped cell by cell.
+        alias = {49: 17, 53: 37, 65: 21}
+        d2 = tempfile.mkdtemp(prefix="qsv-mkt-rec-")
+        try:
+            rows = [(dd, alias.get(o, o), alias.get(c, c), a) for dd, o, c, a in rows_of(code)]
+            write_csv(os.path.join(d2, SYMBOL + ".csv"), rows, rng)
+            try:
+                ds = CSVDailyBarDataSource(d2, Equity, adjust_prices=False, csv_symbols=[SYMBOL])
+                for t in sorted(expected[False]):
+                    e = expected[False][t]
+                    e = (alias.get(e[0], e[0]), e[1]) if e[1] == 1 else e
+                    for k, v in (("get_bid", ds.get_bid(ts(t), asset)), ("get_ask", ds.get_ask(ts(t), asset))):
+                        n += 1
+                        if not _same(v, e):
+                            out.append((code, False, t, k + "(recurring prices)", "returned %r, expected %s" % (
+                                float(v), "NaN" if e[1] == 0 else "%d/%d" % e)))
+            except Exception as ex:
+                out.append((code, False, None, "query(recurring prices)", "raised %s: %s" % (type(ex).__name__, ex)))
+        finally:
+            shutil.rmtree(d2, ignore_errors=True)
     finally:
         shutil.rmtree(d, ignore_errors=True)
     return n, out
